@@ -447,7 +447,7 @@ fn run_l1_at(case: &Case, i: usize, out: &mut Outcome) {
                 detail(),
             ),
             Res::Err(msg) => {
-                if !msg.contains(&format!("'{}'", site_name(cs, h))) {
+                if !msg.contains(&site_name(cs, h)) {
                     // strict mode may legitimately stop at an earlier skipped site
                     if !(cfg.strict && msg.contains("strict mode")) {
                         out.violate(
@@ -472,7 +472,7 @@ fn run_l1_at(case: &Case, i: usize, out: &mut Outcome) {
             (Res::Ok(_), Some(s1)) => {
                 out.count("strict_checked.violation", 1);
                 match &run.out.result {
-                    Res::Err(msg) if msg.contains(&format!("'{s1}'")) => {}
+                    Res::Err(msg) if msg.contains(s1.as_str()) => {}
                     other => out.violate(
                         "strict_first_skipped_site",
                         "C10 L1 strict run does not fail at the first site the non-strict run skips".into(),
@@ -662,26 +662,7 @@ fn build_l2_input(case: &Case, i: usize) -> Option<(Vec<u8>, Option<Plan>)> {
 }
 
 fn parse_skipped(stderr: &str) -> (Option<(usize, usize)>, Vec<String>) {
-    let mut summary = None;
-    let mut sites = vec![];
-    for line in stderr.lines() {
-        if let Some(p) = line.find("Skipped ") {
-            let rest = &line[p + 8..];
-            if let Some((frac, _)) = rest.split_once(" sites") {
-                if let Some((a, b)) = frac.split_once('/') {
-                    if let (Ok(a), Ok(b)) = (a.parse(), b.parse()) {
-                        summary = Some((a, b));
-                    }
-                }
-            }
-        }
-        if let Some(p) = line.find("Skipping site '") {
-            if let Some((s, _)) = line[p + 15..].split_once('\'') {
-                sites.push(s.to_string());
-            }
-        }
-    }
-    (summary, sites)
+    l1::parse_skip_text(stderr.lines())
 }
 
 fn l2_create(ctx: &mut Ctx, cfg: &Config, bytes: &[u8], plan: Option<Plan>, verbose: u8, samples_file: bool) -> ChildResult {
@@ -858,7 +839,7 @@ fn run_l2_at(case: &Case, i: usize, ctx: &mut Ctx, out: &mut Outcome) {
                     match rsk.first() {
                         Some(s1) => {
                             out.count("strict_checked.violation", 1);
-                            if r.ok() || !stderr.contains(&format!("'{s1}'")) {
+                            if r.ok() || !stderr.contains(s1.as_str()) {
                                 out.violate(
                                     "strict_first_skipped_site",
                                     "C10 L2 strict run does not fail at the first site the non-strict run skips".into(),
